@@ -517,3 +517,276 @@ pub fn demux_map_routing(st: &mut Stats, thorough: bool) {
         }
     }
 }
+
+// ------------------------------------------------------------------------------------------------
+// sinktools::demux_map over SCRIPTED member sinks (back-pressure): each member's sink buffers
+// items on start_send and hands them to the member's inbox only when its poll_flush / poll_close
+// returns Ready; it answers Pending at a scripted subset (<= 2) of its first three poll_ready
+// calls and first three poll_flush calls. All scripts x all 1-/2-message sequences x two driving
+// modes (SinkExt::send per message; feed per message + one flush), polled to completion with a
+// no-op waker. Oracle: once the send / flush future has completed, every payload sent so far is
+// in the inbox of exactly the addressed member, in order, and nowhere else.
+
+mod scripted {
+    use std::cell::RefCell;
+    use std::pin::Pin;
+    use std::rc::Rc;
+    use std::task::{Context, Poll};
+
+    pub const POLLS: usize = 3; // scripted positions per kind
+
+    /// Bit i (i < 3): i-th poll_ready answers Pending; bit 3+i: i-th poll_flush answers Pending.
+    pub struct Scripted {
+        pub script: u8,
+        pub ready_polls: usize,
+        pub flush_polls: usize,
+        pub buf: Vec<u8>,
+        pub inbox: Rc<RefCell<Vec<u8>>>,
+    }
+
+    impl sinktools::Sink<u8> for Scripted {
+        type Error = std::convert::Infallible;
+        fn poll_ready(mut self: Pin<&mut Self>, _cx: &mut Context<'_>) -> Poll<Result<(), Self::Error>> {
+            let i = self.ready_polls;
+            self.ready_polls += 1;
+            if i < POLLS && self.script >> i & 1 == 1 { Poll::Pending } else { Poll::Ready(Ok(())) }
+        }
+        fn start_send(mut self: Pin<&mut Self>, item: u8) -> Result<(), Self::Error> {
+            self.buf.push(item);
+            Ok(())
+        }
+        fn poll_flush(mut self: Pin<&mut Self>, _cx: &mut Context<'_>) -> Poll<Result<(), Self::Error>> {
+            let i = self.flush_polls;
+            self.flush_polls += 1;
+            if i < POLLS && self.script >> (POLLS + i) & 1 == 1 {
+                return Poll::Pending;
+            }
+            let items: Vec<u8> = self.buf.drain(..).collect();
+            self.inbox.borrow_mut().extend(items);
+            Poll::Ready(Ok(()))
+        }
+        fn poll_close(self: Pin<&mut Self>, cx: &mut Context<'_>) -> Poll<Result<(), Self::Error>> {
+            self.poll_flush(cx)
+        }
+    }
+
+    /// All scripts with at most 2 Pending answers among the 6 scripted positions.
+    pub fn scripts() -> Vec<u8> {
+        (0u8..64).filter(|s| s.count_ones() <= 2).collect()
+    }
+}
+
+/// Poll a future to completion with a no-op waker; None if it is still pending after `cap` polls.
+fn drive<F: std::future::Future>(f: F, cap: usize) -> Option<F::Output> {
+    use std::task::{Context, Poll, Waker};
+    let mut f = std::pin::pin!(f);
+    let mut cx = Context::from_waker(Waker::noop());
+    for _ in 0..cap {
+        if let Poll::Ready(x) = f.as_mut().poll(&mut cx) {
+            return Some(x);
+        }
+    }
+    None
+}
+
+/// One scripted execution. Returns (observed inboxes per member, problem).
+fn demux_scripted_case(
+    members: &[u32],
+    msgs: &[(u32, u8)],
+    feed_then_flush: bool,
+    scripts: &[u8],
+) -> (String, Option<String>) {
+    use std::cell::RefCell;
+    use std::collections::HashMap;
+    use std::rc::Rc;
+
+    use futures::SinkExt;
+
+    let r = catch(|| {
+        let inboxes: Vec<Rc<RefCell<Vec<u8>>>> =
+            members.iter().map(|_| Rc::new(RefCell::new(vec![]))).collect();
+        let sinks: HashMap<TaglessMemberId, scripted::Scripted> = members
+            .iter()
+            .enumerate()
+            .map(|(i, m)| {
+                (
+                    TaglessMemberId::from_raw_id(*m),
+                    scripted::Scripted {
+                        script: scripts[i],
+                        ready_polls: 0,
+                        flush_polls: 0,
+                        buf: vec![],
+                        inbox: inboxes[i].clone(),
+                    },
+                )
+            })
+            .collect();
+        let mut dm = sinktools::demux_map(sinks);
+        let snapshot = |inboxes: &Vec<Rc<RefCell<Vec<u8>>>>| -> Vec<Vec<u8>> {
+            inboxes.iter().map(|l| l.borrow().clone()).collect()
+        };
+        let expect = |upto: usize| -> Vec<Vec<u8>> {
+            members
+                .iter()
+                .map(|m| msgs[..upto].iter().filter(|(d, _)| d == m).map(|(_, x)| *x).collect())
+                .collect()
+        };
+        let mut problem: Option<String> = None;
+        for (k, (d, x)) in msgs.iter().enumerate() {
+            let item = (TaglessMemberId::from_raw_id(*d), *x);
+            if feed_then_flush {
+                if drive(dm.feed(item), 64).is_none() {
+                    problem = Some(format!("feed of message {k} did not complete within 64 polls"));
+                    break;
+                }
+            } else {
+                if drive(dm.send(item), 64).is_none() {
+                    problem = Some(format!("send of message {k} did not complete within 64 polls"));
+                    break;
+                }
+                let got = snapshot(&inboxes);
+                if got != expect(k + 1) {
+                    problem = Some(format!(
+                        "send({k}).await completed but member inboxes are {got:?}, expected {:?}",
+                        expect(k + 1)
+                    ));
+                    break;
+                }
+            }
+        }
+        if problem.is_none() && feed_then_flush {
+            if drive(dm.flush(), 64).is_none() {
+                problem = Some("flush did not complete within 64 polls".into());
+            } else {
+                let got = snapshot(&inboxes);
+                if got != expect(msgs.len()) {
+                    problem = Some(format!(
+                        "flush().await completed but member inboxes are {got:?}, expected {:?}",
+                        expect(msgs.len())
+                    ));
+                }
+            }
+        }
+        (format!("{:?}", snapshot(&inboxes)), problem)
+    });
+    match r {
+        Ok(x) => x,
+        Err(e) => (format!("panic {e}"), Some(format!("panic: {e}"))),
+    }
+}
+
+pub fn demux_map_scripted(thorough: bool) -> Stats {
+    use std::collections::BTreeMap;
+    use std::sync::Mutex;
+
+    let sets: Vec<Vec<u32>> = if thorough {
+        vec![vec![0, 1], vec![0, 1, 2], vec![2, 255, u32::MAX]]
+    } else {
+        vec![vec![0, 1], vec![255, 0, 2]]
+    };
+    // jobs = (member set, message sequence, driving mode); each job enumerates all script vectors
+    let mut jobs: Vec<(Vec<u32>, Vec<(u32, u8)>, bool)> = vec![];
+    for members in &sets {
+        let mut seqs: Vec<Vec<(u32, u8)>> = vec![];
+        for d in members {
+            seqs.push(vec![(*d, 7)]);
+        }
+        for d in members {
+            for d2 in members {
+                seqs.push(vec![(*d, 7), (*d2, 9)]);
+            }
+        }
+        if thorough {
+            for d in members {
+                for d2 in members {
+                    for d3 in members {
+                        seqs.push(vec![(*d, 7), (*d2, 9), (*d3, 7)]);
+                    }
+                }
+            }
+        }
+        for s in seqs {
+            for mode in [false, true] {
+                jobs.push((members.clone(), s.clone(), mode));
+            }
+        }
+    }
+    let all = scripted::scripts();
+    let first_bad: Mutex<BTreeMap<usize, (Value, Vec<u8>)>> = Mutex::new(BTreeMap::new());
+    let mut st = vf_explore::par_map(jobs.len(), vf_explore::ncpu().min(16), |ji| {
+        let (members, msgs, mode) = &jobs[ji];
+        let mut st = Stats::new();
+        let n = members.len();
+        let total = all.len().pow(n as u32);
+        for c0 in 0..total {
+            let mut c = c0;
+            let mut scripts = vec![];
+            for _ in 0..n {
+                scripts.push(all[c % all.len()]);
+                c /= all.len();
+            }
+            let (observed, problem) = demux_scripted_case(members, msgs, *mode, &scripts);
+            st.eval();
+            st.nontrivial(&(ji, c0));
+            st.outcome(&(ji, &observed, problem.is_some()));
+            if c0 + 1 == total {
+                st.sample(|| json!({"flow": "demux_map_scripted", "members": members, "msgs": format!("{msgs:?}"),
+                    "mode": if *mode { "feed*+flush" } else { "send each" },
+                    "pending_scripts(bits 0-2 poll_ready, 3-5 poll_flush)": scripts, "inboxes": observed}));
+            }
+            if problem.is_some() {
+                st.violations_total += 1;
+                let mut fb = first_bad.lock().unwrap();
+                fb.entry(ji).or_insert_with(|| {
+                    (json!({"members": members, "msgs": format!("{msgs:?}"),
+                            "mode": if *mode { "feed_then_flush" } else { "send_each" },
+                            "pending_scripts": scripts}), scripts.clone())
+                });
+            }
+        }
+        st
+    });
+    // one canonical violation: first failing script vector of the first failing job
+    let fb = first_bad.into_inner().unwrap();
+    let failing = st.violations_total;
+    st.violations_total = 0;
+    if let Some((ji, (case, scripts))) = fb.into_iter().next() {
+        let (members, msgs, mode) = &jobs[ji];
+        let (observed, problem) = demux_scripted_case(members, msgs, *mode, &scripts);
+        match problem {
+            None => {
+                println!("MACHINERY-ERROR: C35 demux_map_scripted {case} failed once and then passed");
+                std::process::exit(2);
+            }
+            Some(p) => {
+                st.violation(
+                    format!("C35:demux_map_scripted:{case}"),
+                    format!("demux_map with back-pressuring member sinks: {p}; case {case}; inboxes {observed} ({failing} failing executions)"),
+                    json!({"kind": "net", "flow": "demux_map_scripted", "case": case}),
+                );
+                st.violations_total = failing;
+            }
+        }
+    }
+    st
+}
+
+pub fn replay_demux_scripted(case: &Value) -> bool {
+    let members: Vec<u32> = case["members"].as_array().unwrap().iter().map(|x| x.as_u64().unwrap() as u32).collect();
+    let scripts: Vec<u8> = case["pending_scripts"].as_array().unwrap().iter().map(|x| x.as_u64().unwrap() as u8).collect();
+    let mode = case["mode"].as_str() == Some("feed_then_flush");
+    // msgs were stored in Debug form "[(d, x), ...]"
+    let txt = case["msgs"].as_str().unwrap();
+    let nums: Vec<u64> = txt
+        .split(|c: char| !c.is_ascii_digit())
+        .filter(|s| !s.is_empty())
+        .map(|s| s.parse().unwrap())
+        .collect();
+    let msgs: Vec<(u32, u8)> = nums.chunks(2).map(|c| (c[0] as u32, c[1] as u8)).collect();
+    let (observed, problem) = demux_scripted_case(&members, &msgs, mode, &scripts);
+    println!("members {members:?} msgs {msgs:?} mode {} scripts {scripts:?} -> inboxes {observed}", case["mode"]);
+    if let Some(p) = &problem {
+        println!("still violates: {p}");
+    }
+    problem.is_some()
+}
